@@ -338,7 +338,8 @@ class GeneInfo:
         gene_info.intron_property_map = None
 
         # additional info for canonical splice site detection
-        gene_info.all_read_region_start = gene_info.start
+        # a region that begins with an alignment at the first base of the sequence starts at 0, the first base is base 1
+        gene_info.all_read_region_start = max(1, gene_info.start)
         gene_info.all_read_region_end = gene_info.end
         gene_info.canonical_sites = {}
         gene_info.gene_regions = {}
@@ -683,7 +684,8 @@ class GeneInfo:
         return self.reference_region[left_pos:right_pos+1]
 
     def set_reference_sequence(self, start, end, chr_record):
-        self.all_read_region_start = start
+        # a region that begins with an alignment at the first base of the sequence starts at 0, the first base is base 1
+        self.all_read_region_start = max(1, start)
         self.all_read_region_end = end
         self.reference_region = \
             str(chr_record[self.all_read_region_start - 1:self.all_read_region_end])
